@@ -140,6 +140,30 @@ impl Monitor for C06 {
                 ctx.check(&Case::new(ev, "boundary", &s, Val::I(ph)), &|c, st| self.judge(c, st));
             }
         }
+        // powers next to the range boundaries, in every spelling
+        let np = ctx.tier.pick(20_000u64, 400_000);
+        for i in 0..np {
+            if ctx.mine() {
+                let mut rng = ctx.rng("pow-boundary", i);
+                let (b, e) = pow_boundary(&mut rng);
+                let bs = i64_expr(b);
+                let (s, ph) = match rng.below(6) {
+                    0 => (format!("@^{}", e), Val::I(b)),
+                    1 => (format!("pow({},{})", bs, e), Val::I(0)),
+                    2 => (format!("{}{}", bs, crate::syntax::to_sup(&e.to_string())), Val::I(0)),
+                    3 => (format!("pow(@,{})", e), Val::I(b)),
+                    4 => (format!("{}^@", bs), Val::I(e as i64)),
+                    _ => (format!("{}^{}", bs, e), Val::I(0)),
+                };
+                ctx.check(&Case::new(ev, "pow-boundary", &s, ph), &|c, st| {
+                    let v = self.judge(c, st);
+                    if let Verdict::Pass { .. } = v {
+                        st.inc("pow_boundaries_confirmed");
+                    }
+                    v
+                });
+            }
+        }
         // flat chains of + and - whose running total walks along the range boundaries: every prefix sum
         // is an intermediate result, so regrouping a chain (pairwise or balanced summation, a fused
         // accumulator) shows as a wrong Ok or a wrong Err (seeded change C06-r8: runs of 16 or more
